@@ -25,6 +25,13 @@ Effects the translator may emit (`Eff`):
                     about the data (`PayloadsAgree`), for the anchor probe of diffConfig the regenerated
                     table fact `anchor_table_agrees`.
 
+* `guarded l`     — per entry the body either *complains* (returns an error, or prints a message in the
+                    `default:` branch of a switch over the key) or performs the effects `l`; a complaint is
+                    decided by the entry alone. Order-insensitive when no entry complains (`NoComplaint`,
+                    a hypothesis about the data; for LoadConfig the regenerated table facts
+                    `default_vals_parse` and `default_keys_known`). With complaints the loop reports
+                    whichever complaining entry comes first — that is why it is a hypothesis.
+
 Other body forms: `collectSorted` (only `out = append(out, …)`, the statement after the loop
 sorts `out`), `anyHit` (no effect; leaves to an outer label on the first hit), `opaque` (the
 translator cannot describe the body: early exit with a result, writes through shared pointers,
@@ -45,6 +52,7 @@ inductive Body
   | collectSorted (slice : String)
   | anyHit
   | firstPayload (target : String)
+  | guarded (l : List Eff)
   | «opaque» (why : String)
   deriving DecidableEq, Repr
 
@@ -149,6 +157,14 @@ structure Sem2 (K : Type) where
   msg : Entry K → String
   hit : Entry K → Bool
   payload : Entry K → String
+  complains : Entry K → Bool
+
+/-- One iteration of a guarded body: once an entry has complained the loop is left. -/
+def guardedStep {K V : Type} [DecidableEq K] (l : List Eff) (sem : Sem K V) (sem2 : Sem2 K)
+    (st : Cells K V × Option String) (e : Entry K) : Cells K V × Option String :=
+  match st.2 with
+  | some _ => st
+  | none => if sem2.complains e then (st.1, some (sem2.payload e)) else (effStep l sem st.1 e, none)
 
 /-- The effect of running a *described* body over the entries in the order `es`. -/
 def runBody {K V C : Type} [DecidableEq K] (site : String) (b : Body) (sem : Sem K V) (sem2 : Sem2 K)
@@ -163,7 +179,14 @@ def runBody {K V C : Type} [DecidableEq K] (site : String) (b : Body) (sem : Sem
     match es with
     | [] => p
     | e :: _ => { p with results := fun m => if m = t then some (sem2.payload e) else p.results m }
+  | .guarded l =>
+    let r := es.foldl (guardedStep l sem sem2) (p.cells, none)
+    { p with cells := r.1, results := fun m => if m = site then r.2 else p.results m }
   | .opaque _ => p
+
+/-- Data hypothesis of a `guarded` body: no entry complains. -/
+def NoComplaint {K : Type} (b : Body) (sem2 : Sem2 K) (es : List (Entry K)) : Prop :=
+  ∀ l, b = .guarded l → ∀ e, e ∈ es → sem2.complains e = false
 
 /-- Data hypothesis of a `firstPayload` body: all entries carry the same payload. -/
 def PayloadsAgree {K : Type} (b : Body) (sem2 : Sem2 K) (es : List (Entry K)) : Prop :=
